@@ -3,6 +3,7 @@ from typing import Union
 from pydbml.classes import Column, Enum, Expression
 from pydbml.renderer.dbml.default.renderer import DefaultDBMLRenderer
 from pydbml.renderer.dbml.default.utils import comment_to_dbml, note_option_to_dbml, quote_string, prepare_text_for_dbml
+from pydbml.renderer.dbml.default.utils import quote_type_if_needed
 from pydbml.renderer.sql.default.utils import get_full_name_for_sql
 
 
@@ -49,7 +50,7 @@ def render_column(model: Column) -> str:
     if isinstance(model.type, Enum):
         result += get_full_name_for_sql(model.type)
     else:
-        result += model.type
+        result += quote_type_if_needed(model.type)
 
     result += render_options(model)
     return result
